@@ -236,6 +236,10 @@ theorem accept_WLe (w : World) (k : Nat) : WLe w (accept w k) := by
 
 theorem userIO_WLe (w : World) (u : Nat) : WLe w (userIO w u) := by
   unfold userIO
+  split
+  · refine ⟨?_, rfl⟩
+    exact (WLe_upd w u { w.users.get u with cmdInBuf := true } (Nat.le_refl _)).1
+  unfold userIO0
   dsimp only
   split
   · refine ⟨?_, rfl⟩
